@@ -93,6 +93,10 @@ def gen_program(rng, nrg, colnames, index_cols, scheme, nrows, filecols=None, mu
             term["index"] = False
         elif im == 2 and filecols:
             term["index"] = filecols[int(rng.integers(0, len(filecols)))]
+            pcols_ = [c for c in colnames if c not in filecols]
+            if pcols_ and rng.random() < 0.35:
+                term["index"] = pcols_[int(rng.integers(0, len(pcols_)))]      # a partition column as the index
+                term["index_is_partition_column"] = True
         elif im == 3 and len(filecols) >= 2 and multi:
             term["index"] = [filecols[0], filecols[-1]]
     if tk == "head":
@@ -314,6 +318,8 @@ def run_case(case):
                 f["partition_on"] = opts.get("partition_on") or []
             res["failures"] += fails
             counters["programs_compared"] = counters.get("programs_compared", 0) + 1
+            if term.get("index_is_partition_column"):
+                counters["programs_with_a_partition_column_as_index"] = counters.get("programs_with_a_partition_column_as_index", 0) + 1
             counters["t:" + term["t"]] = counters.get("t:" + term["t"], 0) + 1
             for s in prog["chain"]:
                 counters["x:" + s["t"]] = counters.get("x:" + s["t"], 0) + 1
@@ -391,4 +397,4 @@ def coverage_extra(agg):
 
 
 def required(tier):
-    return {"programs_compared": 2000, "x:slice": 100, "x:pickle": 100, "x:deepcopy": 50, "x:filelike": 10, "t:head": 100, "t:iter": 100, "reads_with_a_reused_selection_object": 500}
+    return {"programs_compared": 2000, "x:slice": 100, "x:pickle": 100, "x:deepcopy": 50, "x:filelike": 10, "t:head": 100, "t:iter": 100, "reads_with_a_reused_selection_object": 500, "programs_with_a_partition_column_as_index": 30}
